@@ -142,6 +142,78 @@ SUPPRESS_OPT = {
 }
 
 
+def _engaged_by_earlier_pass(fn, n, obj):
+    """A local optional that one pass of a counted loop engages (assignment followed by a test that leaves on
+    failure) and later passes use: may-analysis of (engagement, known value of the loop counter).  The counter's
+    initial constant decides the branches of the first pass, so `if (index % 16 == 0) { o = read(); if (!o) throw; }`
+    is seen to run in the first pass; afterwards the state arrives from the back edge, engaged."""
+    from .c06 import _ceval, _NoValue
+    o = strip_all(obj)
+    if o is None or o.get("k") != "DeclRefExpr" or o.get("dk") != "Var":
+        return False
+    od = o["d"]
+    loop = None
+    for a in fn.ancestors(n):
+        if a.get("k") == "ForStmt" and "init" in a.get("parts", {}):
+            loop = a
+    if loop is None:
+        return False
+    ivs = [v for v in walk(loop["c"][loop["parts"]["init"]]) if v.get("k") == "VarDecl" and v.get("c") and folded(v["c"][0]) is not None]
+    if len(ivs) != 1:
+        return False
+    ivd, iv0 = ivs[0]["d"], folded(ivs[0]["c"][0])
+    cfg = fn.cfg
+
+    def step(st, x):
+        xs, iv = st
+        k = x.get("k")
+        if k == "DeclStmt":
+            for v in x.get("c", []):
+                if v.get("k") == "VarDecl" and v.get("d") == od:
+                    xs = "E" if not v.get("c") or not (strip_all(v["c"][0]) or {}).get("c") else "U"
+                if v.get("k") == "VarDecl" and v.get("d") == ivd:
+                    iv = iv0
+        if k in ("UnaryOperator", "CompoundAssignOperator", "BinaryOperator") and x.get("op") in ("++", "--", "+=", "-=", "=") and \
+                (strip_all(x["c"][0]) or {}).get("d") == ivd:
+            iv = None
+        if k == "CXXOperatorCallExpr" and x.get("op") == "=" and len(x.get("c", [])) == 3 and (strip_all(x["c"][1]) or {}).get("d") == od:
+            rhs = strip_all(x["c"][2])
+            xs = "E" if rhs is not None and rhs.get("k") == "DeclRefExpr" and rhs.get("n") == "nullopt" else "U"
+        if k == "CXXMemberCallExpr" and (strip(x["c"][0]) or {}).get("n") in ("reset", "emplace", "swap") and \
+                (strip_all((strip(x["c"][0]) or {}).get("c", [None])[0]) or {}).get("d") == od:
+            xs = {"reset": "E", "emplace": "V"}.get((strip(x["c"][0]) or {}).get("n"), "U")
+        return {(xs, iv)}
+
+    def edge(p, s_, st):
+        xs, iv = st
+        b = cfg.blocks[p]
+        if b.get("cond") is None or len(cfg.succ[p]) != 2 or cfg.succ[p][0] == cfg.succ[p][1]:
+            return {st}
+        cond = fn.nodes.get(b["cond"])
+        outcome = cfg.succ[p][0] == s_
+        if iv is not None:
+            try:
+                v = _ceval(fn, cond, lambda e: e.get("k") == "DeclRefExpr" and e.get("d") == ivd, iv)
+                if bool(v) != outcome:
+                    return set()
+            except _NoValue:
+                pass
+        for f in flow.atomise(cond, outcome):
+            if f[0] == "T" and (strip_all(f[1]) or {}).get("d") == od:
+                if f[2] is True:
+                    if xs == "E":
+                        return set()
+                    xs = "V"
+                else:
+                    if xs == "V":
+                        return set()
+                    xs = "E"
+        return {(xs, iv)}
+    inn, at = flow.may_states(fn, {("U", None)}, step, edge)
+    sts = at(n)
+    return bool(sts) and all(xs == "V" for xs, _iv in sts)
+
+
 def rule_optional_access(prog, fixture=False):
     r = RuleResult("R-C07-7", "every dereference of a std::optional (*o, o->) is dominated on all paths by a "
                    "test that it is engaged (assert does not count)", floor=0 if fixture else 25)
@@ -157,6 +229,8 @@ def rule_optional_access(prog, fixture=False):
             if ok is None:
                 continue
             if not ok and _engaged_by_assignment(fn, g, n, obj):
+                ok = True
+            if not ok and _engaged_by_earlier_pass(fn, n, obj):
                 ok = True
             if not ok:
                 o = strip_all(obj)
